@@ -191,7 +191,7 @@ def lib_of_ast(e, tags, val):
     if h in ("rneg", "rgt"):
         from lsst.daf.relation import iteration, sql
 
-        kinds = {"it": (iteration.Engine,), "sq": (sql.Engine,)}[e[-1]]
+        kinds = {"it": (iteration.Engine,), "sq": (sql.Engine,), "both": (iteration.Engine, sql.Engine)}[e[-1]]
         if h == "rneg":
             return lib_of_ast(e[1], tags, val).method("__neg__", supporting_engine_types=kinds)
         return lib_of_ast(e[1], tags, val).predicate_method("__gt__", lib_of_ast(e[2], tags, val), supporting_engine_types=set(kinds))
